@@ -28,7 +28,10 @@ Lemma cs1 t : cos t * cos t + sin t * sin t = 1.
 Proof. generalize (sin2_cos2 t); unfold Rsqr; lra. Qed.
 
 Ltac cx_unfold :=
-  unfold Cx.cexp, Cx.cdiv, Cx.cmul, Cx.cadd, Cx.csub, Cx.cneg, Cx.cconj, Cx.cscale, Cx.cI, Cx.c0, Cx.c1, Cx.cofR, Cx.cabs2, Ccis in *; rops; cbn [fst snd] in *.
+  cbv beta iota zeta delta [Cx.cexp Cx.cdiv Cx.cmul Cx.cadd Cx.csub Cx.cneg Cx.cconj Cx.cscale Cx.cI Cx.c0 Cx.c1
+    Cx.cofR Cx.cabs2 Ccis fst snd
+    T add sub mul div neg sqrt_ abs_ sign_ ltb_ leb_ eqb_ isnan_ isinf_ ofZ lit
+    inf_ nan_ pi_ cos_ sin_ tan_ exp_ acos_ asin_ atan2_ pow_ floor_ ROps] in *.
 
 (** np.exp(1j * phi) *)
 Lemma cis_R (phi : R) : cis (O:=ROps) phi = Ccis phi.
@@ -54,10 +57,12 @@ Proof.
 Qed.
 
 Ltac m3_unfold :=
-  unfold is_unitary, is_hermitian, is_idempotent in *;
-  unfold retarder_spec, diattenuator_spec, rotated_element, projector3, rot3, diag3, m3_adj, m3_id, m3_ofR,
-         Cx.m3_mul, Cx.m3_apply, m3_set, m3_zero, Cx.m3_flat, m3_list, cx_flat, jvec3 in *;
-  cbv beta iota zeta delta [m3_set m3_zero Z.mul Z.add Pos.mul Pos.add Pos.succ Pos.add_carry flat_map app fst snd] in *.
+  cbv beta iota zeta delta [is_unitary is_hermitian is_idempotent retarder_spec diattenuator_spec rotated_element
+    projector3 rot3 diag3 m3_adj m3_id m3_ofR Cx.m3_mul Cx.m3_apply m3_set m3_zero Cx.m3_flat m3_list cx_flat jvec3
+    Z.mul Z.add Pos.mul Pos.add Pos.succ Pos.add_carry flat_map app fst snd
+    Cx.cexp Cx.cdiv Cx.cmul Cx.cadd Cx.csub Cx.cneg Cx.cconj Cx.cscale Cx.cI Cx.c0 Cx.c1 Cx.cofR Cx.cabs2 Ccis
+    T add sub mul div neg sqrt_ abs_ sign_ ltb_ leb_ eqb_ isnan_ isinf_ ofZ lit
+    inf_ nan_ pi_ cos_ sin_ tan_ exp_ acos_ asin_ atan2_ pow_ floor_ ROps] in *.
 (** split an equality of nested tuples / lists of reals into scalar goals *)
 Ltac split_eq := repeat (match goal with
   | |- (_, _) = (_, _) => f_equal
